@@ -30,7 +30,8 @@ ASSUMPTIONS = [
     'mutations keep the AST valid (checked by CPython round trip); invalid scripts are discarded and counted',
 ]
 
-MUTS = ('rename', 'const', 'op', 'new_expr', 'foreign_expr', 'dup_expr', 'swap_list', 'reverse_list', 'del_elem', 'ins_stmt', 'dup_stmt', 'del_stmt', 'foreign_stmt', 'move_stmt')
+MUTS = ('rename', 'const', 'op', 'new_expr', 'foreign_expr', 'dup_expr', 'swap_list', 'reverse_list', 'del_elem', 'ins_stmt', 'dup_stmt', 'del_stmt', 'foreign_stmt', 'move_stmt',
+        'clear_list', 'ins_elem', 'del_any_elem')
 
 
 def params(tier):
@@ -201,6 +202,29 @@ def apply_mut(tree, mut, touched, kinds):
                 return False
 
         setslot(p, f, i, new)
+    elif kind in ('clear_list', 'ins_elem', 'del_any_elem'):
+        # expression-list fields of every kind, also empty ones (validity of the result is CPython's call, checked by the caller)
+        fields = ('elts', 'args', 'keywords', 'bases', 'decorator_list', 'ifs', 'type_params', 'comparators', 'targets')
+        lists = [(n, f) for n in ast.walk(tree) for f in fields if isinstance(getattr(n, f, None), list) and not isinstance(n, (ast.JoinedStr, ast.arguments, ast.pattern))
+                 and isinstance(getattr(n, 'ctx', L()), ast.Load) and (kind == 'ins_elem' or getattr(n, f))]
+
+        if kind == 'ins_elem':
+            lists = [(n, f) for n, f in lists if f in ('elts', 'args', 'bases', 'decorator_list', 'ifs')]
+
+        if not lists:
+            return False
+
+        n, f = lists[a % len(lists)]
+        mark(n)
+        v = getattr(n, f)
+
+        if kind == 'clear_list':
+            v.clear()
+        elif kind == 'del_any_elem':
+            del v[b % len(v)]
+        else:
+            v.insert(b % (len(v) + 1), [ast.Name(id='added', ctx=L()), ast.Call(func=ast.Name(id='mk', ctx=L()), args=[], keywords=[]),
+                                        ast.Attribute(value=ast.Name(id='mod', ctx=L()), attr='attr', ctx=L())][(b // 13) % 3])
     elif kind in ('swap_list', 'reverse_list', 'del_elem'):
         lists = [(n, f) for n in ast.walk(tree) for f in ('elts', 'args', 'values') if isinstance(getattr(n, f, None), list) and len(getattr(n, f)) >= 2
                  and not isinstance(n, (ast.JoinedStr, ast.Dict, ast.BoolOp)) and isinstance(getattr(n, 'ctx', L()), ast.Load)]
@@ -326,6 +350,9 @@ def execute(case, ctx):
 
             if S(ast.parse(ast.unparse(exp))) != exp_S:
                 raise ValueError('unstable')
+
+            if c07.norm_dump(tree) != c07.norm_dump(exp):  # e.g. an Assign left without targets, an emptied Set: not a valid AST
+                raise ArithmeticError('edited AST does not survive unparse -> parse')
         except RecursionError:
             raise Skip('recursion') from None
         except Exception as exc:
